@@ -1,6 +1,6 @@
 #!/bin/bash
 # confirm every delivered mutation under /tmp/mut/out that has meta.json and no confirm.json yet (4 at a time)
 cd /verif
-ls -d /tmp/mut/out/*/ | while read d; do
+ls -d ${SEEDROOT:-/tmp/mut/out}/*/ | while read d; do
   [ -f "$d/meta.json" ] && [ -f "$d/patch.diff" ] && [ -f "$d/demo_test.go" ] && [ ! -f "$d/confirm.json" ] && echo "$d"
 done | xargs -r -P 4 -I{} sh -c 'tools/confirm_seed.sh {} > {}/confirm.json.tmp 2>&1; mv {}/confirm.json.tmp {}/confirm.json'
